@@ -16,13 +16,13 @@ theorem filter_unfold (c : Ctx) (gs : Fields) :
        else if (!(dhas "input" gs) || !(dhas "cond" gs)) = true then .error .opFail
        else (evalAt c "input" gs).bind (fun r =>
          match r with
-         | none => .ok none
+         | none | some .null => .ok (some .null)
          | some (.arr items) =>
            match asName gs with
            | none => unmodelled
            | some name =>
              (filterItems (fun item => evalAt (c.bind name item) "cond" gs) items).bind
-               (fun r => .ok (r.map .arr))
+               (fun r => .ok (some (.arr r)))
          | some v => iterErr v)) := by
   have h1 : classify "$filter" = .array := by decide
   have h2 := mode_shaped_doc "$filter" gs (by simp)
@@ -48,13 +48,7 @@ theorem filter_case (c : Ctx) (root : Val) (env : Env) (hr : EnvRel c root env) 
         rAt root env "input" gs ++
         (match asVar gs, sAt root env "input" gs with
          | .ok name, .ok (some (.arr items)) =>
-           (items.map (fun item =>
-              rAt root ((name, some item) :: env) "cond" gs ++
-              (match sAt root ((name, some item) :: env) "cond" gs with
-               | .ok none => ["filtertruth"]
-               | .ok v => if pyFalsyButTrue v = true then ["filtertruth"] else []
-               | _ => []))).flatten
-         | _, .ok none | _, .ok (some .null) => ["nullarg"]
+           (items.map (fun item => rAt root ((name, some item) :: env) "cond" gs)).flatten
          | _, _ => []) = [])
     (res : Option Val)
     (hres : (if (!(dhas "input" gs && dhas "cond" gs) ||
@@ -100,34 +94,25 @@ theorem filter_case (c : Ctx) (root : Val) (env : Env) (hr : EnvRel c root env) 
         simp only [hin] at hres h3
         simp only [Except.bind]
         cases inp with
-        | none => simp at h3
+        | none => simpa [pure, Except.pure] using hres
         | some w =>
           cases w with
-          | null => simp at h3
+          | null => simpa [pure, Except.pure] using hres
           | arr items =>
             simp only at hres h3 ⊢
             have hitems : ∀ x ∈ items, ∃ y,
-                sAt root ((name, some x) :: env) "cond" gs = .ok (some y) ∧
-                evalAt (c.bind name x) "cond" gs = .ok (some y) ∧
-                y.truthy = Spec.toBool (some y) := by
+                sAt root ((name, some x) :: env) "cond" gs = .ok y ∧
+                evalAt (c.bind name x) "cond" gs = .ok y := by
               intro x hx
-              have := flatten_nil _ h3 _ (List.mem_map.mpr ⟨x, hx, rfl⟩)
-              obtain ⟨r1, r2⟩ := append_nil2 this
+              have r1 := flatten_nil _ h3 _ (List.mem_map.mpr ⟨x, hx, rfl⟩)
               obtain ⟨ry, hry⟩ := at_ok root _ "cond" gs vb hvb r1
               have e2 := at_agree (c.bind name x) root _ (hr.bind name x) "cond" gs vb hvb hsub r1
-              cases ry with
-              | none => simp [hry] at r2
-              | some y =>
-                refine ⟨y, hry, by rw [e2, hry], ?_⟩
-                apply truthy_eq_toBool
-                cases hp : pyFalsyButTrue (some y) with
-                | false => rfl
-                | true => simp [hry, hp] at r2
+              exact ⟨ry, hry, by rw [e2, hry]⟩
             obtain ⟨zs, rs, m1, m2, m3⟩ := filter_loop
               (fun item => evalAt (c.bind name item) "cond" gs)
               (fun item => sAt root ((name, some item) :: env) "cond" gs) items hitems
             simp only [m2, pure, Except.pure] at hres
-            simp only [m1, Except.bind, Option.map_some]
+            simp only [m1, Except.bind]
             rw [← hres, m3]
           | _ => all_goals (simp at hres)
 
